@@ -23,7 +23,7 @@ use lyon_path::traits::{Build, SvgPathBuilder};
 use lyon_path::{ArcFlags, Path, PathEvent, Winding};
 use lyon_tessellation::geometry_builder::{BuffersBuilder, Positions};
 use lyon_tessellation::{FillOptions, FillRule, FillTessellator};
-use vh::fillgen::{put_edges, put_tris, Mesh};
+use vh::fillgen::{put_edges, put_tris, History, Mesh};
 use vh::{CaseOut, Ctx, Oracle, Out, Rng};
 
 fn shape_case(ctx: &mut Ctx) {
@@ -358,9 +358,12 @@ fn curve_case(ctx: &mut Ctx) {
         } else {
             format!("curve {} tol={}{}", name, tol, if kind <= 1 { format!(" entry={} {}", entry, if horizontal { "h" } else { "v" }) } else { String::new() })
         };
+        // history of the tessellator object (drawn last; see fillgen::History)
+        let hist = History::gen(rng);
+        let tag = format!("{} {}", tag, hist.tag());
         (args, tag, move || {
             let opts = FillOptions::tolerance(tol).with_fill_rule(rule);
-            let mut tess = FillTessellator::new();
+            let mut tess = hist.tessellator();
             let mut mesh = Mesh::new();
             let eps_t = tol as f64 / 8.0;
             // (path to fill, reference edges, ε_ref, extra allowance)
